@@ -691,6 +691,17 @@ func concatViaChain[T any](chunks []*CV, errAt int) (o Obs) {
 			if w, g := renderCall(any(out), err), renderCall(any(got), gerr); w != g {
 				secondCall = fmt.Sprintf("the chunk list converted for an invoke-only successor node (chain called with Stream) gives %s; chain.Invoke on the streaming node alone gives %s", g, w)
 			}
+			// and the third: the chunk list as the INPUT stream of a chain of one invoke-only node, called with Collect
+			ch3 := compose.NewChain[T, T]()
+			ch3.AppendLambda(compose.InvokableLambda(func(ctx context.Context, in T) (T, error) { return in, nil }))
+			r3, cerr := ch3.Compile(ctx)
+			if cerr != nil {
+				panic("harness: chain does not compile: " + cerr.Error())
+			}
+			got3, gerr3 := r3.Collect(ctx, streamOf(items, -1))
+			if w, g := renderCall(any(out), err), renderCall(any(got3), gerr3); w != g && secondCall == "" {
+				secondCall = fmt.Sprintf("the chunk list as the input stream of an invoke-only node (chain called with Collect) gives %s; chain.Invoke on the streaming node gives %s", g, w)
+			}
 		}
 	})
 	if p != nil {
